@@ -779,6 +779,7 @@ where
             }
             ensure!(n == v.len(), "cloned iterator yields {} elements after {half}, expected {}", n - half, v.len() - half);
         }
+        crate::engine::iter_laws(&item.iter(), v.len(), &|y, j| I::check(y, &v[j])).map_err(|e| format!("iter(): {e}"))?;
         let mut n = 0;
         for y in item.into_iter().take(v.len() + 1) {
             ensure!(n < v.len(), "into_iter() yields more than the {} pushed elements", v.len());
